@@ -514,6 +514,10 @@ func c18ContinueCompare(p *c18PkgRes, test string, a, b *c18Out, known map[strin
 			sg, attributed := c18Attribute(taintUpTo(upTo), known, append(append([]string(nil), dmods...), mods...), sig)
 			if attributed {
 				hit("difference-attributed-to-listed-finding", 1)
+				hit("attributed/"+strings.TrimPrefix(sig, "C18/continue/")+"=>"+strings.TrimPrefix(sg, "C18/"), 1)
+				if os.Getenv("C18_DEBUG") != "" {
+					fmt.Printf("ATTR %s => %s | %s | replay %d lines: %s\n", sig, sg, detail, len(replayOf(s, upTo)), strings.Join(replayOf(s, upTo), " ;; "))
+				}
 			} else {
 				hit("difference-unexplained", 1)
 			}
@@ -744,9 +748,9 @@ func TestC18Pkg(t *testing.T) {
 	defer r.Close()
 	var replay []string
 	if lines := ReplayLines(); len(lines) > 0 {
-		replay = lines
+		replay = c18WithMarkers(lines)
 		if strings.HasPrefix(lines[0], "pkg ") {
-			replay = lines[1:]
+			replay = replay[1:]
 		}
 	}
 	p := c18Package(r, test, replay, r.Seed)
